@@ -153,6 +153,10 @@ func (q *QueryRangeService) exportStreamsValue(out chan []shared.LogEntry,
 			}
 			if e.Err != nil {
 				onErr(e.Err, res)
+				go func() {
+					for range out {
+					}
+				}()
 				return
 			}
 			if i == 0 || lastFp != e.Fingerprint {
@@ -252,6 +256,10 @@ func (q *QueryRangeService) QueryRange(ctx context.Context, query string, fromNs
 			for _, e := range entries {
 				if e.Err != nil && e.Err != io.EOF {
 					onErr(e.Err, res)
+					go func() {
+						for range out {
+						}
+					}()
 					return
 				}
 				if e.Err == io.EOF {
@@ -465,6 +473,10 @@ func (q *QueryRangeService) QueryInstant(ctx context.Context, query string, time
 			for _, e := range entries {
 				if e.Err != nil && e.Err != io.EOF {
 					onErr(e.Err, res)
+					go func() {
+						for range out {
+						}
+					}()
 					return
 				}
 				if e.Err == io.EOF {
